@@ -1,8 +1,9 @@
 (** C02 — reported expected rewards are the values of the conditioned game.
     Proved here: the reward loop runs on exactly the conditioned game the property describes (any
     number instance). The numeric half is in its Bellman-consistency form, see C02_partial below. *)
-From Coq Require Import String List Arith Bool.
-From CR Require Import Model.Num Model.Outcome Model.Game Proofs.PipelineP Proofs.CondP Proofs.RewStepP.
+From Coq Require Import String List Arith Bool QArith Qabs.
+From CR Require Import Model.Num Model.Outcome Model.Game Proofs.PipelineP Proofs.CondP Proofs.RewStepP
+     Proofs.ReachQ Proofs.RewQ Proofs.RewQ2 Proofs.RewResQ Proofs.RewQ3.
 Import ListNotations.
 
 (* For every well-formed game and both modes, when solve returns: the transition lists on which the
@@ -25,11 +26,24 @@ Theorem C02_empty_state_worth_zero : forall (T : Type) (K : ops T) (sl : list (n
   nxt n = [] -> rew_step K sl n = Some (zero K, zero K, zero K).
 Proof. intros T K. exact (rew_step_empty K). Qed.
 
-(* C02_partial: equality "within tolerance" with the true max-min value of the conditioned game is
-   NOT a theorem: it is false in general (known finding K1, witness in known_findings.json: K1-C02);
-   what the stopping rule guarantees is Bellman consistency up to the threshold, which the check
-   evaluates on every run (harness/props/c02.py: bellman_residual) and which is proved for the
-   reachability loop as C01_numeric. *)
+(* Numeric half, Bellman-consistency form (exact rationals): for every well-formed game whose
+   probabilistic transitions carry positive probabilities summing to at most 1, both modes, when solve
+   returns, the reported expected rewards x satisfy at EVERY state s
+        | psi x (owner s) (reward s) (row of s in the conditioned game) - x s |  <=  10^-6
+   where psi is the reward equation: 0 for an emptied state, reward + max(0, successors) for Player 1,
+   reward + min(successors) for Player 2, reward + probability-weighted sum for probabilistic states. *)
+Theorem C02_bellman_consistent : forall fuel (g : game (T:=Q)) prune r,
+  wf_game qops g -> num_wf1 g -> solve_fuel qops fuel g prune = Ok r ->
+  forall s, s < nstates g ->
+    (Qabs (psi (fun i => nth i (r_rewards r) 0) (nth s (g_players g) PR) (nth s (g_rewards g) 0) (nth s (r_pruned r) [])
+           - nth s (r_rewards r) 0) <= q_thr)%Q.
+Proof. exact solve_bellman_consistent. Qed.
+
+(* C02_partial: equality "within tolerance" with the TRUE max-min value of the conditioned game is not a
+   theorem: it is false in general (known finding K1-C02: reward 5e-7 on a self-loop left with
+   probability 1e-7 reports about 1e-6, the value is 5). What the stopping rule guarantees is the
+   consistency above; the check also compares with an exact max-min oracle on guarded families. *)
 
 Print Assumptions C02_runs_on_conditioned_game.
 Print Assumptions C02_empty_state_worth_zero.
+Print Assumptions C02_bellman_consistent.
